@@ -15,6 +15,7 @@ import (
 	"github.com/lianxiangcloud/linkchain/libs/crypto"
 	"github.com/lianxiangcloud/linkchain/libs/ser"
 	"github.com/lianxiangcloud/linkchain/types"
+	wvm "github.com/xunleichain/tc-wasm/vm"
 	"pgregory.net/rapid"
 
 	"verifharness/chainsim"
@@ -102,11 +103,45 @@ type node struct {
 	w    *world.World
 }
 
+// The tc-wasm application cache is a process-wide map keyed by contract address.  Every node of this test is a separate
+// process in reality, so each gets its own cache content: useCache parks the current owner's entries and installs the
+// next owner's (an unknown owner starts empty, like a freshly started process).
+var (
+	cacheOwner = ""
+	cacheStore = map[string]map[interface{}]interface{}{}
+)
+
+func useCache(owner string) {
+	if owner == cacheOwner {
+		return
+	}
+	park := map[interface{}]interface{}{}
+	wvm.AppCache.Range(func(k, v interface{}) bool { park[k] = v; wvm.AppCache.Delete(k); return true })
+	cacheStore[cacheOwner] = park
+	for k, v := range cacheStore[owner] {
+		wvm.AppCache.Store(k, v)
+	}
+	delete(cacheStore, owner)
+	cacheOwner = owner
+}
+
+func resetCaches() {
+	wvm.AppCache.Range(func(k, _ interface{}) bool { wvm.AppCache.Delete(k); return true })
+	cacheStore = map[string]map[interface{}]interface{}{}
+	cacheOwner = ""
+}
+
 func TestBlockDeterminism(t *testing.T) {
 	rapid.Check(t, func(t *rapid.T) {
 		vstat.Eval()
 		defer runtime.GOMAXPROCS(runtime.GOMAXPROCS(0))
-		s := chainsim.New(t, chainsim.Options{Contracts: true, Tokens: true, AllRich: rapid.Bool().Draw(t, "allrich"), RichBalance: true, RealCache: rapid.IntRange(0, 3).Draw(t, "realcache") == 0, Candidates: rapid.IntRange(0, 2).Draw(t, "candidates") != 0})
+		resetCaches()
+		defer resetCaches()
+		s := chainsim.New(t, chainsim.Options{Contracts: true, Tokens: true, AllRich: rapid.Bool().Draw(t, "allrich"), RichBalance: true, RealCache: rapid.IntRange(0, 3).Draw(t, "realcache") == 0, Candidates: rapid.IntRange(0, 2).Draw(t, "candidates") != 0, Wasm: rapid.IntRange(0, 2).Draw(t, "wasm") != 0})
+		kindsHere := accountKinds
+		if s.WasmCodes != nil {
+			kindsHere = append(append([]string(nil), accountKinds...), "wasm-call", "wasm-call", "wasm-call")
+		}
 		defer s.Close()
 		// a twin chain over the SAME genesis in the OTHER storage mode: it must accept and reproduce every block
 		twinSpec := *s.Spec
@@ -140,8 +175,12 @@ func TestBlockDeterminism(t *testing.T) {
 					if g = s.GenUSpend(t, nil); g == nil {
 						g = s.GenA2U(t)
 					}
+				case 9:
+					if g = s.GenUpgrade(t); g == nil {
+						g = s.GenAccountTx(t, kindsHere)
+					}
 				default:
-					g = s.GenAccountTx(t, accountKinds)
+					g = s.GenAccountTx(t, kindsHere)
 				}
 				if g == nil || (g.Kind == "call-suicide" && suicide) {
 					continue
@@ -205,10 +244,27 @@ func TestBlockDeterminism(t *testing.T) {
 				hist = append(hist, fmt.Sprintf("b%d evidence %v", b+1, evidence))
 			}
 			s.W.Evidence = evidence
+			// ---- a proposal that is executed but never committed: this node pre-runs a block that upgrades the WASM contract
+			// (as proposer, or as a validator of somebody's proposal), the round fails, and the upgrade transaction is not seen
+			// again.  Executing a block speculatively must leave nothing behind.
+			if s.WasmCodes != nil && rapid.IntRange(0, 3).Draw(t, "abandoned") == 0 {
+				if up := s.GenUpgrade(t); up != nil {
+					useCache("proposer")
+					func() {
+						defer func() { recover() }()
+						ab := s.W.BlockOf(types.Txs{up.Tx}, world.GenesisTime+uint64(10*(b+1)), cfg.ContractFoundationAddr)
+						s.W.App.PreRunBlock(ab)
+					}()
+					vstat.Label("abandoned_proposal_with_upgrade")
+					hist = append(hist, fmt.Sprintf("b%d (a proposal with [%s] is executed and abandoned)", b+1, up.Desc))
+					nontrivial = true
+				}
+			}
 			// ---- proposer path
 			tstamp := world.GenesisTime + uint64(10*(b+1))
 			var blk *types.Block
 			var pan interface{}
+			useCache("proposer")
 			func() {
 				defer func() { pan = recover() }()
 				blk = s.W.Propose(1000, tstamp, cfg.ContractFoundationAddr)
@@ -221,6 +277,9 @@ func TestBlockDeterminism(t *testing.T) {
 
 			// ---- run to run: the same transactions pre-run again on an untouched replica give the same header
 			rerun.w.Evidence = evidence
+			// the re-running node is a freshly started process: the tc-wasm application cache, which is process-wide and
+			// shared by all nodes of this test, starts empty there
+			useCache(fmt.Sprintf("rerun-%d", b))
 			again := rerun.w.BlockOf(freshTxs(blk.Data.Txs), tstamp, cfg.ContractFoundationAddr)
 			func() {
 				defer func() { pan = recover() }()
@@ -256,6 +315,11 @@ func TestBlockDeterminism(t *testing.T) {
 				}
 				procs := []int{1, 4, 16}[rapid.IntRange(0, 2).Draw(t, fmt.Sprintf("gomaxprocs%d", i))]
 				runtime.GOMAXPROCS(procs)
+				if n.name == "twin-other-storage-mode" {
+					useCache("twin")
+				} else {
+					useCache(fmt.Sprintf("%s-%d", n.name, b)) // replicas are fresh nodes every block
+				}
 				// warm some sender caches in a generated order, like transactions that were seen before
 				for _, j := range rapid.SliceOfN(rapid.IntRange(0, 64), 0, 6).Draw(t, fmt.Sprintf("pretouch%d", i)) {
 					if len(cp.Data.Txs) > 0 {
@@ -272,8 +336,9 @@ func TestBlockDeterminism(t *testing.T) {
 			}
 			// ---- everybody commits; the stored results must be identical
 			pre := s.Snapshot()
+			useCache("proposer")
 			if err := s.W.Commit(blk); err != nil {
-				vstat.Violation(t, P, "proposer-rejects-own-block", "%v", err)
+				vstat.Violation(t, P, "proposer-rejects-own-block", "%v\n%s", err, strings.Join(hist, "\n"))
 				return
 			}
 			if err := s.AfterCommit(blk, nil, pre); err != nil {
@@ -286,6 +351,11 @@ func TestBlockDeterminism(t *testing.T) {
 			for _, n := range []node{cold, warm, polluted, {"twin-other-storage-mode", twin}} {
 				var cp *types.Block
 				ser.DecodeBytes(enc, &cp)
+				if n.name == "twin-other-storage-mode" {
+					useCache("twin")
+				} else {
+					useCache(fmt.Sprintf("%s-%d", n.name, b))
+				}
 				if err := n.w.Commit(cp); err != nil {
 					vstat.Violation(t, P, "validator-cannot-commit:"+n.name, "%s: %v", n.name, err)
 					return
